@@ -666,10 +666,35 @@ pub fn project_segment(d: &[u8], unit: &Unit, f: &Facets) -> Value {
             m.insert("seq".into(), lim(be32(p, 4).unwrap_or(0) as u64));
         }
         if let Some(traf) = moof.child(b"traf") {
+            // defaults a run may inherit from the track fragment header
+            let mut def_dur: Option<u32> = None;
+            let mut def_size: Option<u32> = None;
+            let mut def_flags: Option<u32> = None;
+            let mut base_off: Option<u64> = None;
             if let Some(tfhd) = traf.child(b"tfhd") {
                 let p = tfhd.payload(d);
-                m.insert("tfhdflags".into(), lim((be32(p, 0).unwrap_or(0) & 0xff_ffff) as u64));
+                let fl = be32(p, 0).unwrap_or(0) & 0xff_ffff;
+                m.insert("tfhdflags".into(), lim(fl as u64));
                 m.insert("tfhdtid".into(), lim(be32(p, 4).unwrap_or(0) as u64));
+                let mut o = 8;
+                if fl & 0x1 != 0 {
+                    base_off = be64(p, o);
+                    o += 8;
+                }
+                if fl & 0x2 != 0 {
+                    o += 4;
+                }
+                if fl & 0x8 != 0 {
+                    def_dur = be32(p, o);
+                    o += 4;
+                }
+                if fl & 0x10 != 0 {
+                    def_size = be32(p, o);
+                    o += 4;
+                }
+                if fl & 0x20 != 0 {
+                    def_flags = be32(p, o);
+                }
             }
             if let Some(tfdt) = traf.child(b"tfdt") {
                 let p = tfdt.payload(d);
@@ -694,28 +719,38 @@ pub fn project_segment(d: &[u8], unit: &Unit, f: &Facets) -> Value {
                     data_off = be32(p, o).unwrap_or(0) as i32 as i64;
                     o += 4;
                 }
+                let mut first_flags: Option<u32> = None;
                 if flags & 4 != 0 {
+                    first_flags = be32(p, o);
                     o += 4;
                 }
                 m.insert("dataoff".into(), json!(data_off.clamp(-0x7fff_ffff, 0x7fff_ffff)));
-                let mut pos = moof.off as i64 + data_off;
+                // data offsets are relative to the moof unless the header gives an explicit base offset
+                let base = match base_off {
+                    Some(b) => b as i64,
+                    None => moof.off as i64,
+                };
+                let mut pos = base + data_off;
+                let mut idx = 0usize;
                 let mut ss = vec![];
                 let mut parsed = true;
                 for _ in 0..n.min(MAX_SAMPLES) {
                     let mut s = Map::new();
+                    let mut dur: Option<u32> = def_dur;
                     if flags & 0x100 != 0 {
-                        match be32(p, o) {
-                            Some(v) => {
-                                s.insert("d".into(), lim(unit.q(v as u64)));
-                                if unit.0 != 1 {
-                                    s.insert("dr".into(), lim(unit.r(v as u64)));
-                                }
-                            }
-                            None => parsed = false,
+                        dur = be32(p, o);
+                        if dur.is_none() {
+                            parsed = false;
                         }
                         o += 4;
                     }
-                    let mut size = 0u32;
+                    if let Some(v) = dur {
+                        s.insert("d".into(), lim(unit.q(v as u64)));
+                        if unit.0 != 1 {
+                            s.insert("dr".into(), lim(unit.r(v as u64)));
+                        }
+                    }
+                    let mut size = def_size.unwrap_or(0);
                     if flags & 0x200 != 0 {
                         match be32(p, o) {
                             Some(v) => size = v,
@@ -724,16 +759,23 @@ pub fn project_segment(d: &[u8], unit: &Unit, f: &Facets) -> Value {
                         o += 4;
                     }
                     s.insert("z".into(), lim(size as u64));
+                    let mut sflags: Option<u32> = if idx == 0 && first_flags.is_some() { first_flags } else { def_flags };
                     if flags & 0x400 != 0 {
-                        match be32(p, o) {
-                            Some(v) => {
-                                s.insert("nonsync".into(), json!((v >> 16) & 1 == 1));
-                                s.insert("fl".into(), bytes_json(&v.to_be_bytes()));
-                            }
-                            None => parsed = false,
+                        sflags = be32(p, o);
+                        if sflags.is_none() {
+                            parsed = false;
                         }
                         o += 4;
                     }
+                    if let Some(v) = sflags {
+                        s.insert("nonsync".into(), json!((v >> 16) & 1 == 1));
+                        s.insert("fl".into(), bytes_json(&v.to_be_bytes()));
+                    }
+                    if flags & 0x800 == 0 {
+                        // no composition-offset column: every offset of the run is zero
+                        s.insert("c".into(), json!(0));
+                    }
+                    idx += 1;
                     if flags & 0x800 != 0 {
                         match be32(p, o) {
                             Some(v) => {
